@@ -53,7 +53,7 @@ ClientStep ==
 
 \* the broker issues the next command of some operation (as coded when a command-level deviation is on)
 BrokerCmd ==
-  /\ \E c \in DOMAIN pc : Len(pc[c].todo) > 0 /\ \E y \in Head(pc[c].todo) : OwnerCmd(AsCoded(y))
+  /\ \E c \in DOMAIN pc : \E x \in AsCodedChoice(c) : OwnerCmd(x)
   /\ UNCHANGED <<nops, ncrash, tried>>
 
 BrokerAck ==
